@@ -1,9 +1,11 @@
 #!/bin/sh
 # Re-run every seeded change against /repo HEAD: patch applies, demo passes without / fails with the change, and the quick
-# tier of the checks that caught it before (or of its own property) still exits 1.  SKIP_SUITE=1 skips the pinned suite
-# for seeds whose suite result was already confirmed.  Output: one block per seed (format of try_seed.sh).
+# tier of the checks that caught it before (or of its own property) still exits 1.  LANES seeds run concurrently
+# (default 3; each uses its own scratch worktree /tmp/try_<id>).  SKIP_SUITE=1 skips the pinned suite.
+# Output: one log per seed under /root/scratch/logs/reconfirm/<id>.log (format of try_seed.sh).
 cd /verif
-for d in seeded/*/; do
+mkdir -p /root/scratch/logs/reconfirm
+ls -d seeded/*/ | while read d; do
   id=$(basename $d)
   checks=$(python3 - "$d" <<'PY'
 import json,sys
@@ -14,5 +16,5 @@ if m["property"] not in c: c=[m["property"]]+c
 print(" ".join(c))
 PY
 )
-  tools/try_seed.sh $d $checks 2>&1 | cut -c1-500
-done
+  echo "$id $checks"
+done | xargs -P ${LANES:-3} -L 1 sh -c 'id=$0; tools/try_seed.sh seeded/$id "$@" > /root/scratch/logs/reconfirm/$id.log 2>&1; head -c 300 /root/scratch/logs/reconfirm/$id.log | head -2'
